@@ -15,7 +15,7 @@ P = {
 ASSUME = [
     'cgroups, pids and kernel behaviour (cgroup.kill, pids.current, process exit after SIGKILL) are simulated by the harness; signals never leave the process',
     'ranking keys are abstract in KillAction.tla: the driver renders each key into the statistic the configured plugin ranks by (what the plugins compute from statistics is C09)',
-    'within a run cgroup files change only by processes exiting: cgroup.procs shrinks as pids die, and a cgroup may empty completely (KEmpty: cgroup.events / pids.current / cgroup.procs) right before one of the plugin\'s opens, never between the kernelkill\'s look at cgroup.events and its write of cgroup.kill; removal of a cgroup inside a run is C10',
+    'within a run cgroup files change only by processes exiting: cgroup.procs shrinks as pids die, and a cgroup may empty completely (KEmpty: cgroup.events / pids.current / cgroup.procs) right before one of the plugin\'s opens, never between the kernelkill\'s look at cgroup.events and its write of cgroup.kill; a child cgroup that is no candidate yet may be removed right when oomd is about to open it through its parent (KGone), before anything was attempted in that tick; other removals inside a tick are C10',
     'stage S is exhaustive only within the constants of the .cfg files named in coverage.mc_configs',
 ]
 
@@ -91,7 +91,7 @@ def run(pid, tier, tmp, replay):
         'traces_validated_against_impl': val['accepted'],
         'samples': [{'events_of_one_execution': [json.loads(x) for x in keep]}],
         'mc_configs': ['MC_%s_%s.cfg' % (pid, tier), 'MC_wit_kill.cfg', 'MC_wit_kill_mid.cfg', 'KillAction_Trace.cfg'],
-        'mid_run_emptied_events': n_empty,
+        'mid_run_emptied_events': n_empty, 'mid_tick_removed_children': sum(1 for l in lines if l.startswith('{"e":"KGone"')),
         'mc_distinct_states': mc_res['distinct'],
         'mc_exhaustive_within_constants': bool(mc_res.get('completed')),
         'witnesses_reached': sorted(wit_res['seen']),
